@@ -34,8 +34,8 @@ _cov = cover.Coverage()
 
 def setup(ctx):
     import gaddlemaps._backend as be
-    _cov.watch(be._minimize_molecules)
-    _cov.watch(be.accept_metropolis)
+    _cov.watch_attr(be, '_minimize_molecules')
+    _cov.watch_attr(be, 'accept_metropolis')
     _cov.start()
 
 
